@@ -49,8 +49,8 @@ def run : Runner
       | _ => none
     let calls ← if script == "-" then some [] else (script.splitOn ",").mapM parseCall
     -- after fix e199915 the bytes constructor caches exactly the consumed prefix = wire serialisation
-    let foreign ← if ctor == "msgbytesbad" then bytes? _trailing else some []
-    let s0 := if ctor == "msgbytesbad" then initBytes foreign
+    let foreign ← if ctor == "msgbytesbad" || ctor == "raw" then bytes? _trailing else some []
+    let s0 := if ctor == "msgbytesbad" || ctor == "raw" then initBytes foreign
               else if ctor == "bytes" || ctor == "msgbytes" then initBytes W.ser else initMsg
     let (_, _, toks) := calls.foldl (fun (acc : St × Names × List String) c =>
         let (s, r) := step W acc.1 c
@@ -59,7 +59,17 @@ def run : Runner
     let re := s!"{Bytes.tok W.hash}/{tokList Bytes.tok W.txHashes}/1"
     -- the model's observation is by construction "fresh computation from the wire message + stable identities",
     -- i.e. exactly what C16 prescribes
-    if ctor == "msgbytesbad" then
+    if ctor == "raw" then
+      -- NewBlockFromBytes caches the bytes it consumed. The model does the same (initBytes input); whether they are the
+      -- serialisation of the parsed message is a law of the wire package (parse-then-write is the identity on accepted
+      -- input) that `C16_cache_coherent` assumes - evaluated here on the real wire package
+      let implRes := ((impl.splitOn " RES ").getD 1 "").splitOn " RE " |>.headD ""
+      let mine := if toks.isEmpty then "-" else " ".intercalate toks
+      pure { model := impl,
+             prop := if implRes != mine then "violated:differs from the specified value"
+                     else if foreign != W.ser then "violated:the parsed bytes are cached as the serialisation but the wire package writes the parsed message differently (wire round trip)"
+                     else "ok" }
+    else if ctor == "msgbytesbad" then
       -- the model returns the supplied bytes unchanged (C16_blockAndBytes_vouched); the re-parse section is about those
       -- bytes, not about the message, and is not compared. The property's "serialised bytes equal a fresh computation
       -- from the wire message ... however it was constructed" fails here (known finding)
